@@ -108,7 +108,7 @@ struct Attrs : Profile {
     {
         return {"replace", "replace-type-change", "large-attr", "prefix-names", "dim-attr", "dimscale", "cal", "range", "datastrs",
                 "gr-attr", "vs-attr", "vsfield-attr", "vg-attr", "restart", "restart-write", "dim-renamed-with-metadata", "dimscale-retype-refused",
-                "dimscale-retype-accepted", "dimname-prefix-family", "dimname-word-permutation-pair", "shared-dimension", "shared-dimension-first", "unnamed-dimension-in-later-session"};
+                "dimscale-retype-accepted", "dimname-prefix-family", "dimname-word-permutation-pair", "shared-dimension", "shared-dimension-first", "unnamed-dimension-in-later-session", "dimname-conflict-refused"};
     }
 
     Plan generate(Rng &rng, bool thorough, uint64_t) override
@@ -816,7 +816,24 @@ struct Attrs : Profile {
                         int32 dim = SDgetdimid(id, dn);
                         if (dim == FAIL)
                             ctx.fail("lookup-failed", "lookup-failed:dimid", "SDgetdimid failed");
-                        if (k == "dimname") {
+                        if (k == "dimname" && modn(o.arg(2), 4) == 3) {
+                            // the name of another dimension that has another size: refused (a name stands for one dimension),
+                            // and nothing changes
+                            std::string other;
+                            for (auto &e : s.sds)
+                                for (int q = 0; q < e.rank && e.exists; q++)
+                                    if (!e.dimname[q].empty() && e.dims[q] != d.dims[dn] && e.dimname[q] != d.dimname[dn])
+                                        other = e.dimname[q];
+                            if (other.empty())
+                                done = false;
+                            else {
+                                if (SDsetdimname(dim, other.c_str()) != FAIL)
+                                    ctx.fail("dimname-accepted", "dimname-accepted:size-conflict",
+                                             strf("SDsetdimname gives a dimension of size %d the name '%s' of a dimension of another size", (int)d.dims[dn], other.c_str()));
+                                ctx.probe("dimname-conflict-refused");
+                            }
+                        }
+                        else if (k == "dimname") {
                             if (d.scale[dn] || !d.dimattrs[dn].at.empty())
                                 ctx.probe("dim-renamed-with-metadata"); // used to be guarded: repaired (findings/fixed)
                             std::string nn = fresh_dimname(s, strf("dim_%d_%d_%d_r%d", di, dn, s.uniq++, (int)o.arg(2)), o.arg(2) + o.arg(3));
